@@ -1798,8 +1798,77 @@ def extract(ctx: Ctx) -> None:
             f"def timerFailureIsForever : Bool := {'true' if len(ff) == 1 else 'false'}\n\n")
     out += ("/-- the retry loops of `_timer` and `_daemon` contain an unconditional `await asyncio.sleep(0)` at the top level of their body -/\n"
             f"def loopsYieldEachIteration : Bool := {'true' if loops_yield_each_iteration(tree) else 'false'}\n\n")
+    out += ("/-- a DELETED event stops what runs for the object: `process_resource_event` calls `stop_daemons_of_gone_object` right after\n"
+            "    `memories.forget`; that marks the memory `object_gone` and starts `stop_daemon(RESOURCE_DELETED)` for every running daemon;\n"
+            "    `spawn_daemons` returns at once for such a memory -/\n"
+            f"def stopsGone : Bool := {'true' if stops_gone(ctx.repo, tree) else 'false'}\n\n")
+    out += ("/-- the killer's `finally:` starts with `memories.mark_operator_exiting()` (all memories, and — inventory — those created later);\n"
+            "    `spawn_daemons` returns at once for a marked memory -/\n"
+            f"def marksExiting : Bool := {'true' if marks_exiting(ctx.repo, tree) else 'false'}\n\n")
     out += "end Kopf.C09.Extracted\n"
     leanio.write_generated("Kopf/Extracted/C09.lean", out)
+
+
+def _spawn_guard(tree: ast.AST, attr: str) -> bool:
+    """`if memory.<attr>: return []` among the statements of `spawn_daemons` that precede its spawning loop"""
+    fn = pyextract.find_def(tree, "spawn_daemons")
+    for st in pyextract.body_without_docstring(fn):
+        if isinstance(st, ast.For):
+            return False
+        if isinstance(st, ast.If) and pyextract.norm(st.test) == f"memory.{attr}" and not st.orelse \
+                and [pyextract.norm(x) for x in st.body] == ["return []"]:
+            return True
+    return False
+
+
+def stops_gone(repo: Any, tree: ast.AST) -> bool:
+    """The repair of F10 (25da2b9), read from the three places it consists of."""
+    try:
+        fn = pyextract.find_def(tree, "stop_daemons_of_gone_object")
+    except Exception:
+        return False
+    body = pyextract.body_without_docstring(fn)
+    texts = [pyextract.norm(st) for st in body]
+    loops = [st for st in body if isinstance(st, ast.For)]
+    marks = "memory.object_gone = True" in texts
+    sweeps = len(loops) == 1 and pyextract.norm(loops[0].iter) == "list(memory.running_daemons.values())" \
+        and not any(isinstance(x, (ast.If, ast.Continue, ast.Break, ast.Return)) for x in ast.walk(loops[0])) \
+        and any("asyncio.create_task(" in pyextract.norm(x) and "stop_daemon(" in pyextract.norm(x)
+                and "RESOURCE_DELETED" in pyextract.norm(x) for x in loops[0].body)
+    ptree = pyextract.parse_file(repo / "kopf/_core/reactor/processing.py")
+    pe = pyextract.find_def(ptree, "process_resource_event")
+    called = False
+    for n in ast.walk(pe):
+        if isinstance(n, ast.If) and pyextract.norm(n.test) in ("raw_type == 'DELETED'", 'raw_type == "DELETED"'):
+            bt = [pyextract.norm(x) for x in n.body]
+            if "await memories.forget(raw_body)" in bt:
+                k = bt.index("await memories.forget(raw_body)")
+                called = called or (k + 1 < len(bt) and bt[k + 1] ==
+                                    "await daemons.stop_daemons_of_gone_object(settings=settings, memory=memory.daemons_memory)")
+    return marks and sweeps and called and _spawn_guard(tree, "object_gone")
+
+
+def marks_exiting(repo: Any, tree: ast.AST) -> bool:
+    """The repair of F13 (1d3a667), read from the places it consists of."""
+    fk = pyextract.find_def(tree, "daemon_killer")
+    tries = [n for n in ast.walk(fk) if isinstance(n, ast.Try) and n.finalbody]
+    first = len(tries) == 1 and pyextract.norm(tries[0].finalbody[0]) == "memories.mark_operator_exiting()"
+    base = False
+    for cls in [n for n in ast.walk(tree) if isinstance(n, ast.ClassDef) and n.name == "DaemonsMemoriesIterator"]:
+        for fn in [n for n in cls.body if isinstance(n, ast.FunctionDef) and n.name == "mark_operator_exiting"]:
+            loops = [st for st in pyextract.body_without_docstring(fn) if isinstance(st, ast.For)]
+            base = len(loops) == 1 and pyextract.norm(loops[0].iter) == "self.iter_all_daemon_memories()" \
+                and [pyextract.norm(x) for x in loops[0].body] == ["memory.operator_exiting = True"]
+    itree = pyextract.parse_file(repo / "kopf/_core/reactor/inventory.py")
+    later = False
+    for cls in [n for n in ast.walk(itree) if isinstance(n, ast.ClassDef) and n.name == "ResourceMemories"]:
+        fns = {n.name: n for n in cls.body if isinstance(n, (ast.FunctionDef, ast.AsyncFunctionDef))}
+        if "mark_operator_exiting" in fns and "recall" in fns:
+            mt = [pyextract.norm(x) for x in pyextract.body_without_docstring(fns["mark_operator_exiting"])]
+            rt = [pyextract.norm(x) for x in ast.walk(fns["recall"]) if isinstance(x, ast.stmt)]
+            later = "self._operator_exiting = True" in mt and "super().mark_operator_exiting()" in mt \
+                and "memory.daemons_memory.operator_exiting = self._operator_exiting" in rt
+    return first and base and later and _spawn_guard(tree, "operator_exiting")
 
 
 def loops_yield_each_iteration(tree: ast.AST | None = None) -> bool:
